@@ -3,7 +3,7 @@ namespace Yaclib.Pool
 open Yaclib.Extracted.PoolConsts
 
 set_option maxHeartbeats 2000000 in
-theorem invB_step_2 {w s l s'} (ha : InvA w s) (hi : InvB w s) (hs : Step s l s') (hg : grpOf l = 2) : InvB w s' := by
+theorem invB_step_2 {w s l s'} (_ha : InvA w s) (hi : InvB w s) (hs : Step s l s') (hg : grpOf l = 2) : InvB w s' := by
   cases hs with
   | wPop i b j rest h hq => wfacts h; cases hi; invB_close
   | wStop i b h hq hc => wfacts h; cases hi; invB_close
